@@ -9,6 +9,8 @@ pub trait DDNNFPtr: Copy + PartialEq {
     proof fn eq_is_sem()
         ensures
             Self::obeys_eq_spec(),
+            // `==` on pointers is (at least as fine as) structural equality of what they point to
+            forall|a: Self, b: Self| #[trigger] a.eq_spec(&b) ==> a == b,
             forall|a: Self, b: Self, env: Env| #![trigger a.eq_spec(&b), tr(env)] a.eq_spec(&b) ==> a.sem(env) == b.sem(env),
             forall|a: Self, env: Env| #![trigger a.is_true_s(), tr(env)] a.is_true_s() ==> a.sem(env),
             forall|a: Self, env: Env| #![trigger a.is_false_s(), tr(env)] a.is_false_s() ==> !a.sem(env);
